@@ -216,7 +216,7 @@ PROPS = {
         level_text='Decides equality-vs-ordering consistency structurally and totality + sign laws of the algebra and conversions by abstract interpretation; magnitudes are not decided.',
     ),
     'C18': dict(
-        rules=[r_tables.s18_source_tables, r_tables.s18e_source_redispatch, r_tables.s18b_clv_zero_range, r_tables.s18c_validate_boxes, r_tables.s18d_sequence_validate, r_tables.s06_ma_dispatch, r_conv.s19b_same_name_wiring,
+        rules=[r_tables.s18_source_tables, r_tables.s18e_source_redispatch, r_tables.s18f_true_range_nan_taint, r_tables.s18b_clv_zero_range, r_tables.s18c_validate_boxes, r_tables.s18d_sequence_validate, r_tables.s06_ma_dispatch, r_conv.s19b_same_name_wiring,
                lambda ctx: r_absint.a01_constructors(ctx, groups=('parser',), rule_id='A01p', min_entries=4,
                    title='Source::from_str, MA::from_str and the TryFrom conversions reach no panic for any text'),
                r_absint.a01t_parser_truncation],
